@@ -9,7 +9,7 @@ from .fals_models import gen_history
 
 def gen_cb_arr(rng):
     T = rng.randint(6, 40)
-    J = wchoice(rng, [(3, 0), (2, rng.randint(0, T // 2)), (1, rng.randint(T // 2, T + 5))])
+    J = wchoice(rng, [(3, 0), (2, rng.randint(0, T // 2)), (1, rng.randint(T // 2, T + 5)), (0.7, rng.randint(T, 2 * T + 2))])
     return ("spo", T, J) if rng.random() < 0.8 else ("per", T)
 
 
@@ -22,6 +22,25 @@ def releases_for(a, horizon, rng, sync):
     return [r for r in rel if r < horizon]
 
 
+def model(ops):
+    """the same operation lines evaluated by the Lean model (native driver)"""
+    return common.run_parallel(common.lean_bin(), [o if gen.cap_dense(o) == o else "skip" for o in ops])
+
+
+def shifted_releases(cbs, horizon, rng, target, A):
+    """all callbacks start together at 0 with dense releases; the target's releases are delayed by A"""
+    out = []
+    for j, c in enumerate(cbs):
+        if c["arr"] is None:
+            out.append([])
+            continue
+        rl = releases_for(c["arr"], horizon, rng, sync=True)
+        if j == target:
+            rl = [r + A for r in rl if r + A < horizon]
+        out.append(rl)
+    return out
+
+
 def gen_res_supply(rng):
     s = gen.gen_supply(rng, allow_default=False, maxP=10)
     return s
@@ -32,6 +51,7 @@ def falsify_C04(ctx):
     n = 300 if ctx["tier"] == "quick" else 10000
     cex, samples, nontrivial = [], [], set()
     dist = {"es": 0, "tm": 0, "pp": 0, "ch": 0, "diverged": 0}
+    spec_viol = []
     horizon = 600
     for it in range(n):
         kind = wchoice(rng, [(3, "es"), (3, "tm"), (3, "pp"), (2, "ch")])
@@ -107,10 +127,31 @@ def falsify_C04(ctx):
             dist["diverged"] += 1
             continue
         R = int(r.split()[1])
-        for rep in range(4):
-            sigma = ros_sim.make_supply(sup, horizon, rng, mode=["random", "late", "worst", "random"][rep])
-            rels = [releases_for(c["arr"], horizon - 200, rng, sync=(rep % 2 == 0)) if c["arr"] is not None else [] for c in cbs]
-            done = ros_sim.simulate_executor(cbs, rels, sigma, chains)
+        nreps = 6
+        mres = model([op])[0]
+        if mres.startswith("ok ") and int(mres.split()[1]) > R:
+            # the model claims a larger bound than the real code: intensify the search
+            dist["model_guided_searches"] = dist.get("model_guided_searches", 0) + 1
+            nreps = 400
+        for rep in range(nreps):
+            sigma = ros_sim.make_supply(sup, horizon, rng, mode=["random", "late", "worst", "random"][rep % 4])
+            if rep >= 4:
+                tgt = target[1]
+                rels = shifted_releases(cbs, horizon - 200, rng, tgt, rng.randint(0, 25))
+                # reservation alignment: drop a random number of leading slots
+                cut = rng.randint(0, 12)
+                sigma = sigma[cut:] + [False] * cut
+            else:
+                rels = [releases_for(c["arr"], horizon - 200, rng, sync=(rep % 2 == 0)) if c["arr"] is not None else [] for c in cbs]
+            tr = [] if (kind == "tm" and rep < 2) else None
+            done = ros_sim.simulate_executor(cbs, rels, sigma, chains, trace=tr)
+            if tr is not None:
+                # Spec validation: the executor model's runs satisfy the schedule-level Spec over
+                # which `timer_sound` is proved
+                viol = ros_sim.check_timer_legal(cbs, rels, sigma, tr, target[1])
+                dist["timer_spec_checked_runs"] = dist.get("timer_spec_checked_runs", 0) + 1
+                if viol:
+                    spec_viol.append({"op": op, "clauses": viol})
             nontrivial.add((op, rep))
             worst = 0
             if target[0] == "cb":
@@ -131,6 +172,8 @@ def falsify_C04(ctx):
                 break
         if len(samples) < 4 and R > 0:
             samples.append({"op": op, "bound": R})
+    for v in spec_viol[:5]:
+        cex.append({"kind": "executor_oracle_vs_schedule_spec", "op": v["op"], "violated_clauses": v["clauses"]})
     return {"cases": sum(dist[k] for k in ("es", "tm", "pp", "ch")), "nontrivial": len(nontrivial),
             "rule": "random executor workloads (timers, polled callbacks, a chain of polled callbacks) and event-source job sets on random periodic / deadline-constrained reservations: dense admissible releases (synchronous and phased), budget placed at random / as late as possible / adversarially, executed by the executor model (timers first, ready set refreshed only when empty, one instance per callback per polling window, non-preemptive, service only in supplied slots) resp. FIFO; observed response times vs the real bound; blocking bound of a timer = longest other non-higher-priority callback - 1; a polled callback is analysed with ALL other callbacks as interference; non-trivial = distinct (analysis input, scenario)",
             "counterexamples": cex, "samples": samples, "distribution": dist}
@@ -145,14 +188,30 @@ def falsify_C05(ctx):
     for it in range(n):
         which = "rr" if rng.random() < 0.5 else "bw"
         sup = gen_res_supply(rng)
-        ss = gen.supply_str(sup)
-        nt, npo = rng.randint(0, 2), rng.randint(1, 3)
         cbs = []
-        for i in range(nt):
-            cbs.append({"kind": "T", "prio": i, "cost": rng.randint(1, 3), "arr": gen_cb_arr(rng), "tag": "T"})
-        for i in range(npo):
-            cbs.append({"kind": "P", "prio": i, "cost": rng.randint(1, 3), "arr": gen_cb_arr(rng),
-                        "tag": (f"P {i}" if rng.random() < 0.7 else "U")})
+        if rng.random() < 0.35:
+            # few callbacks, long callbacks, bursts of two or three instances (jitter close to / above
+            # the period), often a dedicated processor: the caps on polled interference are binding
+            if rng.random() < 0.5:
+                sup = ("ded",)
+            nt, npo = rng.randint(0, 1), rng.randint(2, 3)
+            for i in range(nt):
+                T = rng.randint(30, 120)
+                cbs.append({"kind": "T", "prio": i, "cost": rng.randint(1, 6), "arr": ("spo", T, rng.randint(0, T)), "tag": "T"})
+            for i in range(npo):
+                T = rng.randint(40, 200)
+                J = wchoice(rng, [(2, 0), (3, T - rng.randint(1, 4)), (2, rng.randint(T, 2 * T))])
+                cbs.append({"kind": "P", "prio": i, "cost": rng.randint(2, 10), "arr": ("spo", T, J),
+                            "tag": (f"P {i}" if rng.random() < 0.6 else "U")})
+            dist["bursty_small"] = dist.get("bursty_small", 0) + 1
+        else:
+            nt, npo = rng.randint(0, 2), rng.randint(1, 3)
+            for i in range(nt):
+                cbs.append({"kind": "T", "prio": i, "cost": rng.randint(1, 3), "arr": gen_cb_arr(rng), "tag": "T"})
+            for i in range(npo):
+                cbs.append({"kind": "P", "prio": i, "cost": rng.randint(1, 3), "arr": gen_cb_arr(rng),
+                            "tag": (f"P {i}" if rng.random() < 0.7 else "U")})
+        ss = gen.supply_str(sup)
         m = len(cbs)
         # iterate the singleton analyses upwards from the WCETs to a self-consistent bound vector
         rtb = [c["cost"] for c in cbs]
@@ -174,9 +233,18 @@ def falsify_C05(ctx):
         if not ok:
             dist["no_fixed_point"] += 1
             continue
-        for rep in range(4):
-            sigma = ros_sim.make_supply(sup, horizon, rng, mode=["random", "late", "worst", "random"][rep])
-            rels = [releases_for(c["arr"], horizon - 250, rng, sync=(rep % 2 == 0)) for c in cbs]
+        nreps = 6
+        mres = model(ops)
+        if any(a.startswith("ok ") and b.startswith("ok ") and int(b.split()[1]) > int(a.split()[1]) for a, b in zip(res, mres)):
+            # the model's analysis returns a larger value on this (self-consistent) input: intensify
+            dist["model_guided_searches"] = dist.get("model_guided_searches", 0) + 1
+            nreps = 300
+        for rep in range(nreps):
+            sigma = ros_sim.make_supply(sup, horizon, rng, mode=["random", "late", "worst", "random"][rep % 4])
+            if rep >= 4:
+                rels = shifted_releases(cbs, horizon - 250, rng, rng.randrange(m), rng.randint(0, 12))
+            else:
+                rels = [releases_for(c["arr"], horizon - 250, rng, sync=(rep % 2 == 0)) for c in cbs]
             done = ros_sim.simulate_executor(cbs, rels, sigma)
             nontrivial.add((wl, rep))
             for i in range(m):
